@@ -1,2 +1,5 @@
 import DroopProofs
-/-! Property theorems, one file per property (Props/Cxx.lean); helper lemmas live in DroopProofs. -/
+import Props.C03
+import Props.C04
+import Props.C10
+import Props.C14
